@@ -55,6 +55,8 @@ type c09Plant struct {
 	where    string // description
 	chain    []string
 	skipped  bool // some path on the way to the location is "visited" for the heuristic
+	leafKind     string
+	knownMissing string // recorded finding which explains a planted bad value that is NOT reported at this location ("" none)
 	setValue func(v any)
 	remove   func()
 }
@@ -145,27 +147,44 @@ func anySkipped(paths []string) bool {
 	return false
 }
 
-// newLeaf is the planted leaf schema: {type: integer, maximum: 5}, or — for the cases which run with the
-// caller-supplied alternative registry — {type: string, format: x-even}, a format only that registry knows.
-func newLeaf(fmtLeaf bool) map[string]any {
-	if fmtLeaf {
+// newLeaf is the planted leaf schema: {type: integer, maximum: 5} ("int"); for the cases which run with the
+// caller-supplied alternative registry {type: string, format: x-even}, a format only that registry knows ("fmt");
+// and {type: object, maxProperties: 1} ("obj"), whose accepted value {"type":"array"} looks like a schema.
+func newLeaf(kind string) map[string]any {
+	switch kind {
+	case "fmt":
 		return map[string]any{"type": "string", "format": "x-even"}
+	case "obj":
+		return map[string]any{"type": "object", "maxProperties": gen.I(1)}
 	}
 	return map[string]any{"type": "integer", "maximum": gen.I(5)}
 }
 
-func (p *c09) plant(r *lib.Rand, g *gen.SpecGen, doc map[string]any, fmtLeaf bool) *c09Plant {
-	leaf := newLeaf(fmtLeaf)
-	var sibling any = gen.I(1)
-	if fmtLeaf {
-		sibling = "cd"
+// leafValues gives a value the leaf accepts, one it rejects, and an accepted sibling for array defaults.
+func leafValues(kind string, r *lib.Rand) (good, bad, sibling any) {
+	switch kind {
+	case "fmt":
+		return "ab", "abc", "cd"
+	case "obj":
+		return map[string]any{"type": "array"}, map[string]any{"a": gen.I(1), "b": gen.I(2)}, map[string]any{}
 	}
+	bad = any(gen.I(7))
+	if r.Bool() {
+		bad = "x"
+	}
+	return gen.I(3), bad, gen.I(1)
+}
+
+func (p *c09) plant(r *lib.Rand, g *gen.SpecGen, doc map[string]any, leafKind string, variant int) *c09Plant {
+	fmtLeaf := leafKind
+	leaf := newLeaf(leafKind)
+	sibling := func() any { _, _, sb := leafValues(fmtLeaf, r); return sb }
 	forExample := r.P(0.4)
 	key := "default"
 	if forExample {
 		key = "example"
 	}
-	pl := &c09Plant{kind: key}
+	pl := &c09Plant{kind: key, leafKind: leafKind}
 	pl.setValue = func(v any) { leaf[key] = v }
 	pl.remove = func() { delete(leaf, key) }
 	paths, _ := doc["paths"].(map[string]any)
@@ -226,6 +245,9 @@ func (p *c09) plant(r *lib.Rand, g *gen.SpecGen, doc map[string]any, fmtLeaf boo
 		pl.where, pl.chain, pl.skipped = "response 200 schema", append([]string{"response-schema"}, chain...), anySkipped(ps)
 	case k == 5 || k == 6:
 		// simple parameter, possibly through nested items
+		if fmtLeaf == "obj" {
+			fmtLeaf, pl.leafKind = "int", "int"
+		}
 		if forExample {
 			// examples are not allowed on simple parameters by the Swagger schema: use the response example instead
 			resp200["schema"] = map[string]any{"type": "object", "properties": map[string]any{"v": newLeaf(fmtLeaf)}}
@@ -244,6 +266,10 @@ func (p *c09) plant(r *lib.Rand, g *gen.SpecGen, doc map[string]any, fmtLeaf boo
 		}
 		node["name"] = []string{"q1", "a.a", "limit2", "t"}[r.Intn(4)]
 		node["in"] = r.Pick("query", "header", "formData")
+		if variant == 1 {
+			// a later parameter of the same location whose name differs but maps to the same Go identifier
+			node["name"] = "user_id"
+		}
 		if node["in"] == "formData" {
 			var out []any
 			for _, q := range params() {
@@ -253,19 +279,36 @@ func (p *c09) plant(r *lib.Rand, g *gen.SpecGen, doc map[string]any, fmtLeaf boo
 			}
 			opNode["parameters"] = out
 		}
-		opNode["parameters"] = append(params(), node)
-		pl.where, pl.chain = fmt.Sprintf("simple parameter, items depth %d", d), []string{"simple-param", fmt.Sprintf("items*%d", d)}
+		switch {
+		case variant == 1:
+			opNode["parameters"] = append(params(), node, map[string]any{"name": "userId", "in": node["in"], "type": "integer", "default": gen.I(0)})
+			pl.knownMissing = "go-name-collision-drops-parameter"
+		case variant == 2 && !g.NoRefs:
+			// the parameter lives in the top-level parameters section and the operation refers to it
+			doc["parameters"].(map[string]any)["Planted"+g.Tag] = node
+			opNode["parameters"] = append(params(), map[string]any{"$ref": "#/parameters/Planted" + g.Tag})
+		case variant == 3:
+			// ... or nothing refers to it
+			doc["parameters"].(map[string]any)["Planted"+g.Tag] = node
+			pl.knownMissing = "unreferenced-shared-parameter-or-response-not-visited"
+		default:
+			opNode["parameters"] = append(params(), node)
+		}
+		pl.where, pl.chain = fmt.Sprintf("simple parameter, items depth %d", d), []string{"simple-param", fmt.Sprintf("items*%d", d), fmt.Sprintf("variant%d", variant)}
 		pl.setValue = func(v any) { target["default"] = v }
 		pl.remove = func() { delete(target, "default") }
 		if d >= 1 && r.Bool() {
 			// the default sits on the parameter itself: an array value nested d deep around the leaf value
 			top := node
-			pl.where, pl.chain = fmt.Sprintf("simple parameter, array default nested %d deep", d), []string{"simple-param", fmt.Sprintf("array-default*%d", d)}
-			pl.setValue = func(v any) { top["default"] = wrapArray(v, d, sibling) }
+			pl.where, pl.chain = fmt.Sprintf("simple parameter, array default nested %d deep", d), []string{"simple-param", fmt.Sprintf("array-default*%d", d), fmt.Sprintf("variant%d", variant)}
+			pl.setValue = func(v any) { top["default"] = wrapArray(v, d, sibling()) }
 			pl.remove = func() { delete(top, "default") }
 		}
 	default:
 		// response header, possibly through nested items
+		if fmtLeaf == "obj" {
+			fmtLeaf, pl.leafKind = "int", "int"
+		}
 		if forExample {
 			resp200["schema"] = map[string]any{"type": "array", "items": newLeaf(fmtLeaf)}
 			pl.kind = "example"
@@ -280,19 +323,32 @@ func (p *c09) plant(r *lib.Rand, g *gen.SpecGen, doc map[string]any, fmtLeaf boo
 		for i := 0; i < d; i++ {
 			node = map[string]any{"type": "array", "items": node}
 		}
-		h, _ := resp200["headers"].(map[string]any)
+		host := resp200
+		switch {
+		case variant == 2 && !g.NoRefs:
+			// the header lives in a response of the top-level responses section which the operation refers to
+			host = map[string]any{"description": "planted shared response"}
+			doc["responses"].(map[string]any)["Planted"+g.Tag] = host
+			opNode["responses"].(map[string]any)["404"] = map[string]any{"$ref": "#/responses/Planted" + g.Tag}
+		case variant == 3:
+			// ... or which nothing refers to
+			host = map[string]any{"description": "planted shared response"}
+			doc["responses"].(map[string]any)["Planted"+g.Tag] = host
+			pl.knownMissing = "unreferenced-shared-parameter-or-response-not-visited"
+		}
+		h, _ := host["headers"].(map[string]any)
 		if h == nil {
 			h = map[string]any{}
-			resp200["headers"] = h
+			host["headers"] = h
 		}
 		h["X-Planted"] = node
-		pl.where, pl.chain = fmt.Sprintf("response header, items depth %d", d), []string{"header", fmt.Sprintf("items*%d", d)}
+		pl.where, pl.chain = fmt.Sprintf("response header, items depth %d", d), []string{"header", fmt.Sprintf("items*%d", d), fmt.Sprintf("variant%d", variant)}
 		pl.setValue = func(v any) { target["default"] = v }
 		pl.remove = func() { delete(target, "default") }
 		if d >= 1 && r.Bool() {
 			top := node
-			pl.where, pl.chain = fmt.Sprintf("response header, array default nested %d deep", d), []string{"header", fmt.Sprintf("array-default*%d", d)}
-			pl.setValue = func(v any) { top["default"] = wrapArray(v, d, sibling) }
+			pl.where, pl.chain = fmt.Sprintf("response header, array default nested %d deep", d), []string{"header", fmt.Sprintf("array-default*%d", d), fmt.Sprintf("variant%d", variant)}
+			pl.setValue = func(v any) { top["default"] = wrapArray(v, d, sibling()) }
 			pl.remove = func() { delete(top, "default") }
 		}
 	}
@@ -329,7 +385,14 @@ func (p *c09) Run(w *lib.Worker, idx int, r *lib.Rand) lib.Case {
 	doc := g.Clean()
 	// every fourth case: the planted schema carries a format which only a caller-supplied registry knows,
 	// and the specification is validated with that registry (NewSpecValidator(schema, formats))
-	fmtLeaf := idx%4 == 3
+	leafKind := "int"
+	switch {
+	case idx%4 == 3:
+		leafKind = "fmt"
+	case idx%7 == 5:
+		leafKind = "obj" // schema locations only; a value which looks like a schema
+	}
+	fmtLeaf := leafKind == "fmt"
 	formats, session := strfmt.Registry(strfmt.Default), p.session
 	if fmtLeaf {
 		if p.altSession == nil {
@@ -338,27 +401,25 @@ func (p *c09) Run(w *lib.Worker, idx int, r *lib.Rand) lib.Case {
 		}
 		formats, session = altRegistry(), p.altSession
 	}
-	pl := p.plant(r, g, doc, fmtLeaf)
+	// location variants of simple parameters and headers: 1 = a sibling whose name maps to the same Go identifier,
+	// 2 = in the top-level parameters / responses section and referred to, 3 = there and referred to by nothing
+	variant := 0
+	if idx%3 == 1 {
+		variant = 1 + (idx/3)%3
+	}
+	pl := p.plant(r, g, doc, leafKind, variant)
+	leafKind = pl.leafKind
 	cfg := sut.SpecOpts{Continue: idx%2 == 0, Strict: true}
 	pl.remove()
 	baseText := gen.JSON(doc)
-	pl.setValue(gen.I(3))
-	if fmtLeaf {
-		pl.setValue("ab")
-	}
+	goodValue, bad, _ := leafValues(leafKind, r)
+	pl.setValue(goodValue)
 	goodText := gen.JSON(doc)
-	bad := any(gen.I(7))
-	if r.Bool() {
-		bad = "x"
-	}
-	if fmtLeaf {
-		bad = "abc"
-	}
 	pl.setValue(bad)
 	badText := gen.JSON(doc)
 
 	c := lib.Case{Hash: lib.Hash64(badText), Nontrivial: true, Evals: 3}
-	c.Tags = []string{"plant:" + pl.kind, "chain:" + strings.Join(pl.chain, ">"), fmt.Sprintf("continue:%v", cfg.Continue), boolTag("suffix-skipped", pl.skipped), boolTag("format-leaf-under-alternative-registry", fmtLeaf)}
+	c.Tags = []string{"plant:" + pl.kind, "chain:" + strings.Join(pl.chain, ">"), fmt.Sprintf("continue:%v", cfg.Continue), boolTag("suffix-skipped", pl.skipped), boolTag("format-leaf-under-alternative-registry", fmtLeaf), "leaf:" + leafKind}
 	base, good, badO := sut.ValidateSpecWith(baseText, cfg, formats), sut.ValidateSpecWith(goodText, cfg, formats), sut.ValidateSpecWith(badText, cfg, formats)
 	sample := map[string]any{"where": pl.where, "kind": pl.kind, "chain": pl.chain, "bad_value": bad, "document_with_bad_value": string(badText), "config": fmt.Sprintf("%+v", cfg)}
 	if idx%100 == 0 {
@@ -381,6 +442,18 @@ func (p *c09) Run(w *lib.Worker, idx int, r *lib.Rand) lib.Case {
 	}
 	fail := func(what string, extra any) lib.Case {
 		sample["observed"] = extra
+		if missing := strings.Contains(what, "rejected by its own schema"); missing && pl.knownMissing != "" && !pl.skipped {
+			c.Known = []string{pl.knownMissing}
+			c.KnownWhat = fmt.Sprintf("%s at %s (%s): %s", pl.kind, pl.where, strings.Join(pl.chain, ">"), what)
+			c.Sample = sample
+			return c
+		}
+		if spurious := strings.Contains(what, "accepted by its schema"); spurious && leafKind == "obj" && !pl.skipped {
+			c.Known = []string{"swagger-prechecks-applied-to-default-and-example-values"}
+			c.KnownWhat = fmt.Sprintf("%s at %s (%s): %s: %v", pl.kind, pl.where, strings.Join(pl.chain, ">"), what, extra)
+			c.Sample = sample
+			return c
+		}
 		if pl.skipped {
 			c.Known = []string{"visited-suffix-heuristic"}
 			c.KnownWhat = fmt.Sprintf("%s at %s (%s): %s", pl.kind, pl.where, strings.Join(pl.chain, ">"), what)
@@ -416,6 +489,57 @@ func (p *c09) Run(w *lib.Worker, idx int, r *lib.Rand) lib.Case {
 		}
 		if extra := subset(badO.Warnings, base.Warnings); len(extra) == 0 {
 			return fail("an example rejected by its own schema raised no warning", badO.Warnings)
+		}
+	}
+	// every fifth case: a second plant of the other kind elsewhere in the same document (a default its schema
+	// rejects AND an example its schema rejects): the error of the one must not hide the warning of the other
+	if idx%5 == 4 && !pl.skipped && pl.knownMissing == "" && leafKind != "obj" {
+		other := "example"
+		if pl.kind == "example" {
+			other = "default"
+		}
+		secLeaf := map[string]any{"type": "integer", "maximum": gen.I(5)}
+		doc["definitions"].(map[string]any)["Sec"+g.Tag] = map[string]any{"type": "object", "properties": map[string]any{"qq": secLeaf}}
+		defLeafSet := func(v any) { secLeaf[other] = v }
+		// document 1: the default is bad, the example is good; document 2: both are bad
+		setDefault, setExample := pl.setValue, defLeafSet
+		if pl.kind == "example" {
+			setDefault, setExample = defLeafSet, pl.setValue
+		}
+		goodV, badV := any(gen.I(3)), any(gen.I(7))
+		goodP, badP := goodValue, bad // values for the primary plant
+		val := func(primary bool, good bool) any {
+			if primary {
+				if good {
+					return goodP
+				}
+				return badP
+			}
+			if good {
+				return goodV
+			}
+			return badV
+		}
+		setDefault(val(pl.kind == "default", false))
+		setExample(val(pl.kind == "example", true))
+		onlyDefaultBad := gen.JSON(doc)
+		setExample(val(pl.kind == "example", false))
+		bothBad := gen.JSON(doc)
+		o1, o2 := sut.ValidateSpecWith(onlyDefaultBad, cfg, formats), sut.ValidateSpecWith(bothBad, cfg, formats)
+		c.Evals += 2
+		c.Tags = append(c.Tags, "dual-plant:bad-default-and-bad-example")
+		sample["document_with_bad_default_and_bad_example"] = string(bothBad)
+		if o1.Panic != "" || o2.Panic != "" {
+			c.Viol = &lib.Violation{What: "panic: " + o1.Panic + o2.Panic, Detail: sample}
+			return c
+		}
+		if o2.Valid {
+			c.Viol = &lib.Violation{What: fmt.Sprintf("a default rejected by its schema was not reported as an error when the document also holds a rejected example [%+v] doc=%s", cfg, bothBad), Detail: sample}
+			return c
+		}
+		if extra := subset(o2.Warnings, o1.Warnings); len(extra) == 0 {
+			c.Viol = &lib.Violation{What: fmt.Sprintf("an example rejected by its schema raised no warning when the document also holds a rejected default [%+v, primary %s at %s] doc=%s", cfg, pl.kind, pl.where, bothBad), Detail: sample}
+			return c
 		}
 	}
 	return c
